@@ -118,7 +118,7 @@ def extract_liquid(
     fileobj: TextIO,
     keywords: list[str],
     comment_tags: list[str] | None = None,
-    options: dict[object, object] | None = None,  # noqa: ARG001
+    options: dict[object, object] | None = None,
 ) -> Iterator[MessageTuple]:
     """A babel compatible translation message extraction method for Liquid templates.
 
@@ -139,12 +139,25 @@ def extract_liquid(
     to extract messages from an existing template bound to an existing
     environment.
     """
-    template = parse(fileobj.read())
-    return extract_from_template(
+    source = fileobj.read()
+    if isinstance(source, bytes):
+        # Babel opens the files it extracts messages from in binary mode.
+        encoding = (options or {}).get("encoding", "utf-8")
+        source = source.decode(str(encoding))
+
+    template = parse(source)
+    for lineno, funcname, message, comments in extract_from_template(
         template=template,
         keywords=keywords,
         comment_tags=comment_tags,
-    )
+    ):
+        # Babel takes the item at the position of `(n, "c")` in a keyword's spec as
+        # the message context. Here it comes as `(context, "c")`.
+        if isinstance(message, tuple):
+            message = tuple(  # noqa: PLW2901
+                item[0] if isinstance(item, tuple) else item for item in message
+            )
+        yield MessageTuple(lineno, funcname, message, comments)
 
 
 __all__ = (
